@@ -992,6 +992,9 @@ func c10Discovery(e *Env) {
 				if !bytes.Equal(resp.Token(), tok) {
 					e.Violate("C10.R5", "discovery-foreign-token", "receiver of token %x got a response with token %x", tok, resp.Token())
 				}
+				if c := resp.Code(); c >= codes.GET && c <= codes.DELETE {
+					e.Violate("C10.R5", "request-handed-to-discovery-receiver", "receiver of token %x got a request (%v) of %s: tokens are scoped per direction, it is a request for the application's handler", tok, c, cc.RemoteAddr())
+				}
 			}, coapNet.WithAnyMulticastInterface())
 			w.mu.Lock()
 			d.done = true
@@ -1083,14 +1086,25 @@ func c10Discovery(e *Env) {
 		answers = append(answers[:k], answers[k+1:]...)
 		tok := discs[a.di].token
 		pl := fmt.Sprintf("res-from-%s-for-%d", a.from.IP, a.di)
+		code := byte(0x45)
 		if a.forged {
 			tok = []byte{0xee, 0xee, byte(a.di)}
 			pl = "forged"
 			e.Fault("discovery.foreignToken")
+			switch t.Choose(3) {
+			case 1: // the one 8-byte token with the same CRC-64 as the discovery's (short) token
+				if ct := collidingToken(discs[a.di].token); ct != nil {
+					tok = ct
+					e.Probe("discovery.tokenWithTheSameChecksum")
+				}
+			case 2: // not a response at all: a request of that peer which happens to carry the discovery's token bytes
+				tok, code, pl = discs[a.di].token, 1, ""
+				e.Probe("discovery.requestWithTheDiscoveryToken")
+			}
 		} else if !discs[a.di].sendFails {
 			want[a.di] = append(want[a.di], a.from.String()+"|"+pl)
 		}
-		d := w.dn.Inject(a.from, w.srvAddr, EncodeUDP(&WMsg{Type: TNON, Code: 0x45, MID: uint16(9000 + len(answers)), Token: tok, Payload: []byte(pl)}))
+		d := w.dn.Inject(a.from, w.srvAddr, EncodeUDP(&WMsg{Type: TNON, Code: code, MID: uint16(9000 + len(answers)), Token: tok, Payload: []byte(pl)}))
 		w.dn.Take(d)
 		w.dn.Deliver(d)
 		e.Wait()
